@@ -338,6 +338,22 @@ def build(call, conc):
             kw["bbox"] = span(p["bbox"], c, half)
         if len(p["rmax"]):
             kw["range_max"] = rat(p["rmax"])
+        if c.get("squeeze") and len(p["bbox"]) in (0, 4) and not len(p["rmax"]):
+            # the same track with every position that lies outside the box moved to ONE representable step beyond the
+            # edge it violates (still strictly outside: same flags; no range_max, so the hops do not matter)
+            x1, y1, x2, y2 = [half(v) for v in p["bbox"]] if len(p["bbox"]) == 4 else [-180.0, -90.0, 180.0, 90.0]
+            if x1 <= x2 and y1 <= y2:
+                def sq(vals, lo, hi):
+                    out = []
+                    for v in vals:
+                        fv = math.nan if v == NA else half(v)
+                        if fv < lo:
+                            fv = float(np.nextafter(lo, -np.inf))
+                        elif fv > hi:
+                            fv = float(np.nextafter(hi, np.inf))
+                        out.append(fv)
+                    return np.array(out, dtype=np.float64)
+                kw["lon"], kw["lat"] = sq(call["lon"], x1, x2), sq(call["lat"], y1, y2)
         if p.get("shapes") == "differ":
             kw["lon"] = np.asarray(np.ma.filled(np.ma.masked_invalid(np.array(
                 [math.nan if v is None else v for v in list(kw["lon"])], dtype=np.float64)), np.nan))
